@@ -84,6 +84,11 @@ fn id_of_path(id_builder: &mut IdBuilder, root: &Path, path: &Path) -> Option<Ow
     Some(entry)
 }
 
+#[cfg(assets_manager_verif)]
+pub(super) fn verif_id_of_path(root: &Path, path: &Path) -> Option<OwnedDirEntry> {
+    id_of_path(&mut IdBuilder::default(), root, path)
+}
+
 enum EventHandlerPayload<H> {
     Waiting(crossbeam_channel::Receiver<H>),
     Handler(H),
